@@ -51,6 +51,8 @@ class time_guard(object):
         self.seconds = seconds
 
     def _raise(self, signum=None, frame=None):
+        if not getattr(self, "active", False):
+            return  # a re-fire that arrives while (or after) the guarded block is being left: ignore
         # a check may have narrowed the address-space limit (C20): give the harness room again first, otherwise
         # raising the timeout can itself fail with MemoryError and the guard never gets through
         try:
@@ -85,6 +87,7 @@ class time_guard(object):
 
         self.on = self.seconds and threading.current_thread() is threading.main_thread()
         if self.on:
+            self.active = True
             self.old = signal.signal(signal.SIGALRM, self._raise)
             # re-fires: the first HarnessTimeout may be swallowed where Python ignores exceptions (gc callbacks, __del__)
             signal.setitimer(signal.ITIMER_REAL, self.seconds, 0.5)
@@ -92,6 +95,7 @@ class time_guard(object):
     def __exit__(self, *a):
         import signal
 
+        self.active = False  # first: from here on the handler does nothing
         if self.on:
             signal.setitimer(signal.ITIMER_REAL, 0)
             signal.signal(signal.SIGALRM, self.old)
